@@ -66,3 +66,11 @@ func TestQuery(t *testing.T) {
 	tier := os.Getenv("VERIF_TIER")
 	fmt.Printf("RUNS=%d\n", c.Runs[tier])
 }
+
+// TestBombChild parses VERIF_BOMB in an address-space-limited subprocess (C06).
+func TestBombChild(t *testing.T) {
+	if os.Getenv("VERIF_BOMB") == "" {
+		t.Skip()
+	}
+	BombChild()
+}
